@@ -4,7 +4,7 @@
 use crate::util::*;
 use compute::linalg::{
     backward_substitution, cholesky, cholesky_solve, forward_substitution, ipiv_parity, is_positive_definite,
-    is_symmetric, lu, lu_solve, Matrix, Solve, Vector,
+    is_symmetric, lu, lu_solve, try_cholesky, Matrix, Solve, Vector,
 };
 
 // ------------------------------------------------------------------------------------------------
@@ -146,8 +146,10 @@ fn emit_all(cs: &mut Cases, r: &mut Rng, a: &[f64], n: usize, cname: &str) {
     }
     // --- Cholesky family (panics unless symmetric within EPSILON)
     let ch = catch(|| cholesky(a));
-    let ctag = |s: &str| format!("{}/{}{}", s, cname, if symmetric { "" } else { "/rejected" });
+    let ctag = |s: &str| format!("{}/{}{}", s, cname, if !symmetric { "/rejected-asymmetric" } else if ch.is_err() { "/rejected-not-positive-definite" } else { "" });
     cs.push(app("CChol", vec![fl(a), outcome_list(&ch)]), &ctag("cholesky"), nt2);
+    let tch = catch(|| match try_cholesky(a) { Some(l) => { let mut v = vec![1.0]; v.extend(l); v } None => vec![0.0] });
+    cs.push(app("CTryChol", vec![fl(a), outcome_list(&tch)]), &format!("try_cholesky/{}/{}", cname, match &tch { Ok(v) if v[0] == 1.0 => "factor", Ok(_) => "not-positive-definite", Err(_) => "rejected" }), nt2);
     if n >= 1 {
         let chm = catch(|| mat_out(&mk(a, n, n).cholesky()));
         cs.push(app("CCholM", vec![nat(n), nat(n), fl(a), outcome_list(&chm)]), &ctag("Matrix::cholesky"), nt2);
@@ -215,13 +217,19 @@ pub fn gen(tier: &str, seed: u64, outdir: &str) {
         if n >= 2 { lo[1] = -0.0; up[n] = -0.0; let s = special(&mut r); lo[n] = s; up[1] = s; }
         emit_subst(&mut cs, &lo, &up, &b, n, "triangular-special");
     }
-    // symmetry tolerance: one ulp of asymmetry is accepted below 1, rejected from 2 up
-    for n in 2..=5usize { for big in [false, true] {
+    // symmetry tolerance (relative, 2^-52 of the larger magnitude): one ulp of asymmetry is accepted at every scale,
+    // four ulps are rejected; a non-symmetric matrix of tiny entries is rejected (the absolute test accepted it)
+    for n in 2..=5usize { for (k, ulps) in [1u64, 4].iter().enumerate() { for v in [0.75f64, 2.5, 1.9999999] {
         let mut a = gen_matrix(&mut r, n, 7);
-        let v: f64 = if big { 2.5 } else { 0.75 };
-        a[1] = v; a[n] = f64::from_bits(v.to_bits() + 1);
-        emit_all(&mut cs, &mut r, &a, n, if big { "spd-asymmetric-1ulp-above-2" } else { "spd-asymmetric-1ulp-below-1" });
-    }}
+        a[1] = v; a[n] = f64::from_bits(v.to_bits() + ulps);
+        emit_all(&mut cs, &mut r, &a, n, if k == 0 { "spd-asymmetric-1ulp" } else { "spd-asymmetric-4ulp" });
+    }}}
+    for n in 2..=4usize {
+        let mut a = gen_matrix(&mut r, n, 7); for x in a.iter_mut() { *x *= 1e-20; }
+        emit_all(&mut cs, &mut r, &a, n, "spd-tiny-scale");
+        a[1] *= 3.0;
+        emit_all(&mut cs, &mut r, &a, n, "tiny-scale-asymmetric");
+    }
     // 2. ipiv_parity: every permutation of 0..n
     for n in 0..=(if thorough { 7usize } else { 5 }) {
         for p in all_perms(n) {
@@ -495,6 +503,12 @@ pub fn oracle(tier: &str, seed: u64) -> (u64, Vec<Finding>) {
             crumb(&format!("cholesky / Matrix::cholesky / cholesky_solve {}", inp));
             let l1 = catch(|| cholesky(&s)); let l2 = catch(|| mk(&s, ns, ns).cholesky().data.v.clone());
             match &l1 { Ok(l) => check_chol(&mut out, "cholesky", &s, ns, l, &inp), Err(e) => out.push(Finding { class: "cholesky:panics-on-spd-input".into(), what: e.clone(), input: inp.clone() }) }
+            match (catch(|| try_cholesky(&s)), &l1) {
+                (Ok(Some(t)), Ok(l)) => if t.iter().map(|x| x.to_bits()).ne(l.iter().map(|x| x.to_bits())) { out.push(Finding { class: "try_cholesky:differs-from-cholesky".into(), what: "try_cholesky and cholesky return different factors".into(), input: inp.clone() }) },
+                (Ok(None), _) => out.push(Finding { class: "try_cholesky:rejects-spd-input".into(), what: "try_cholesky returned None for an SPD matrix".into(), input: inp.clone() }),
+                (Err(e), _) => out.push(Finding { class: "try_cholesky:panics-on-spd-input".into(), what: e, input: inp.clone() }),
+                _ => {}
+            }
             match &l2 { Ok(l) => check_chol(&mut out, "Matrix::cholesky", &s, ns, l, &inp), Err(e) => out.push(Finding { class: "Matrix::cholesky:panics-on-spd-input".into(), what: e.clone(), input: inp.clone() }) }
             if let (Ok(a1), Ok(a2)) = (&l1, &l2) {
                 // identical in exact arithmetic; in binary64 both are backward stable, so they agree to cond.n.u
@@ -536,6 +550,21 @@ pub fn oracle(tier: &str, seed: u64) -> (u64, Vec<Finding>) {
             match catch(|| mk(&lo, nt, nt).forward_substitution(&b).v) { Ok(x) => check_tri(&mut out, "Matrix::forward_substitution", &lo, nt, true, &x, &b, &inl), Err(e) => out.push(Finding { class: "Matrix::forward_substitution:panics-on-valid-input".into(), what: e, input: inl.clone() }) }
             match catch(|| backward_substitution(&up, &b)) { Ok(x) => check_tri(&mut out, "backward_substitution", &up, nt, false, &x, &b, &inu), Err(e) => out.push(Finding { class: "backward_substitution:panics-on-valid-input".into(), what: e, input: inu.clone() }) }
             match catch(|| mk(&up, nt, nt).backward_substitution(&b).v) { Ok(x) => check_tri(&mut out, "Matrix::backward_substitution", &up, nt, false, &x, &b, &inu), Err(e) => out.push(Finding { class: "Matrix::backward_substitution:panics-on-valid-input".into(), what: e, input: inu.clone() }) }
+        }
+        // (g0) input that is not positive definite is rejected (never a factor, in particular never a non-finite one):
+        //      symmetric, positive diagonal, a 2x2 principal minor with a clearly negative determinant; or a non-positive diagonal entry
+        {
+            let n3 = 2 + r.below(if big { 30 } else { 10 }) as usize;
+            let c3 = if r.coin(0.5) { 9 } else { 8 };
+            let mut a3 = gen_matrix(&mut r, n3, c3);
+            let (p, q) = { let p = r.below(n3 as u64) as usize; let mut q = r.below(n3 as u64) as usize; if q == p { q = (p + 1) % n3; } (p, q) };
+            if r.coin(0.7) { let v = 2.0 * (a3[p * n3 + p] * a3[q * n3 + q]).abs().sqrt() + 1.0; a3[p * n3 + q] = v; a3[q * n3 + p] = v; }
+            else { a3[p * n3 + p] = if r.coin(0.5) { 0.0 } else { -1.0 - r.unit() }; }
+            let inp = format!("n={} a={}", n3, json_floats(&a3));
+            tried += 3; crumb(&format!("cholesky / try_cholesky / Matrix::cholesky of a matrix that is not positive definite {}", inp));
+            match catch(|| cholesky(&a3)) { Ok(l) => out.push(Finding { class: if finite(&l) { "cholesky:accepts-input-that-is-not-positive-definite".into() } else { "cholesky:nonfinite-factor-for-input-that-is-not-positive-definite".into() }, what: format!("cholesky returned a factor (finite: {}) for a symmetric matrix with a negative 2x2 principal minor or a non-positive diagonal entry", finite(&l)), input: inp.clone() }), Err(_) => {} }
+            match catch(|| try_cholesky(&a3)) { Ok(Some(l)) => out.push(Finding { class: "try_cholesky:accepts-input-that-is-not-positive-definite".into(), what: format!("try_cholesky returned Some (finite: {})", finite(&l)), input: inp.clone() }), Ok(None) => {}, Err(e) => out.push(Finding { class: "try_cholesky:panics-on-symmetric-input".into(), what: e, input: inp.clone() }) }
+            match catch(|| mk(&a3, n3, n3).cholesky().data.v.clone()) { Ok(l) => out.push(Finding { class: if finite(&l) { "Matrix::cholesky:accepts-input-that-is-not-positive-definite".into() } else { "Matrix::cholesky:nonfinite-factor-for-input-that-is-not-positive-definite".into() }, what: format!("Matrix::cholesky returned a factor (finite: {})", finite(&l)), input: inp.clone() }), Err(_) => {} }
         }
         // (g) rejection: non-symmetric input to cholesky, wrong right-hand-side lengths, non-square slices
         if it % 5 == 0 {
